@@ -111,5 +111,7 @@ class SymmetricLinearOperator(Function):
 
                 T[i, j] = self.L * gi * xj - gi * gj - self.mu * self.L * xi * xj + self.mu * xi * gj
 
-        psd_matrix = PSDMatrix(matrix_of_expressions=T)
-        self.list_of_class_psd.append(psd_matrix)
+        # No LMI for an operator that has not been evaluated (an empty matrix is not a constraint)
+        if N > 0:
+            psd_matrix = PSDMatrix(matrix_of_expressions=T)
+            self.list_of_class_psd.append(psd_matrix)
